@@ -124,11 +124,15 @@ def load_known():
     return out
 
 
-def load_lock():
-    path = os.path.join(ROOT, "obligations.lock")
-    if os.path.exists(path):
-        return json.load(open(path))
-    return {}
+def load_lock(pid=None):
+    """Obligations proved on the unchanged tree, one committed file per property (locks/<id>.json)."""
+    out = {}
+    d = os.path.join(ROOT, "locks")
+    if os.path.isdir(d):
+        for fn in os.listdir(d):
+            if fn.endswith(".json"):
+                out[fn[:-5]] = json.load(open(os.path.join(d, fn)))
+    return out
 
 
 def clause_of(name):
@@ -311,9 +315,9 @@ def run_property(pid, tier, seed, update_lock=False, only=None, verbose=False):
     for u in undecided:
         print(f"UNDECIDED {u}")
     if update_lock and not errors:
-        lk = load_lock()
-        lk[pid] = sorted(n for n, e in obl.items() if e["verdict"] == "proved")
-        json.dump(lk, open(os.path.join(ROOT, "obligations.lock"), "w"), indent=0, sort_keys=True)
+        os.makedirs(os.path.join(ROOT, "locks"), exist_ok=True)
+        json.dump(sorted(n for n, e in obl.items() if e["verdict"] == "proved"), open(os.path.join(ROOT, "locks", f"{pid}.json"), "w"), indent=0)
+        lock = []
     if violations:
         return 1
     if errors or vac:
